@@ -74,3 +74,74 @@ package jhttp
 //@   requires req != nil && req.URL != nil
 //@   ensures[C19:method] result2 == nil ==> result0 != ""
 //@   ensures[C19:error-empty] result2 != nil ==> result0 == "" && result1 == nil
+
+// ---------------------------------------------------------------------------
+// HTTP client channel (C19): request goroutines and response bodies
+// ---------------------------------------------------------------------------
+
+// bodyDebt counts, per thread, the HTTP response bodies this thread still has
+// to close. A successful Do creates one; Body.Close pays one; a response sent
+// over c.rsp with err == nil carries its debt to whoever receives it.
+//@ tlghost bodyDebt Int
+//@ chanmsg response bodyDebt, (msg.err == nil ? 1 : 0)
+//@ chaninv response msg.err == nil ==> msg.rsp != nil
+
+//@ iface HTTPClient.Do
+//@   modifies bodyDebt
+//@   ensures result1 == nil ==> result0 != nil && bodyDebt == old(bodyDebt) + 1
+//@   ensures result1 != nil ==> bodyDebt == old(bodyDebt)
+
+// Send starts exactly one goroutine per accepted record, owing one Done.
+// valid(c): the response channel is closed only after Close has cleared c.cli
+// (Close$1 closes it, after wg.Wait has seen every request goroutine's Done).
+//@ func (*Channel).Send
+//@   requires c.wg != nil && (c.cli != nil ==> !chanclosed(c.rsp))
+//@   ensures[C19:closed-no-goroutine] c.cli == nil ==> result != nil
+//@   ensures[C19:debt-handed-over] wgDebt(c.wg) == old(wgDebt(c.wg))
+
+// The request goroutine pays its Done and leaves no body unclosed: a 204 body
+// is closed here, any other response travels to the receiver with its debt.
+//@ func (*Channel).Send$1
+//@   root
+//@   transfer wgDebt(c.wg), 1
+//@   requires c != nil && c.wg != nil && cli != nil && req != nil && !chanclosed(c.rsp)
+//@   modifies wgDebt(c.wg), bodyDebt
+//@   ensures[C19:done-paid] wgDebt(c.wg) == 0
+//@   ensures[C19:no-body-left] bodyDebt == 0
+
+// Recv closes the body of every response it takes from the channel.
+//@ func (*Channel).Recv
+//@   ensures[C19:body-closed] bodyDebt == old(bodyDebt)
+
+// Close drains the channel; every response it discards must have its body closed.
+//@ func (*Channel).Close
+//@   modifies c.cli
+//@   ensures[C19:drained-bodies-closed] bodyDebt == old(bodyDebt)
+//@   loop 1 invariant bodyDebt == old(bodyDebt)
+
+// ---------------------------------------------------------------------------
+// Getter (C19): status mapping and JSON bodies
+// ---------------------------------------------------------------------------
+
+// writeJSON: a marshalable object is written as one compact JSON body with the
+// given status; otherwise the status is 500 (and the body is the error text).
+//@ func writeJSON
+//@   requires w != nil
+//@   modifies whStatus(w), whCalls(w), wbCalls(w), wbJSON(w)
+//@   ensures[C19:status] marshalable(obj) ==> whStatus(w) == code && wbJSON(w)
+//@   ensures[C19:unmarshalable] !marshalable(obj) ==> whStatus(w) == 500
+//@   ensures[C19:one-header] whCalls(w) == old(whCalls(w)) + 1
+
+// An *Error with valid data is always marshalable (valid(err), DESIGN 6.3).
+//@ axiom forall(e Int, marshalable(boxof(e, "*jrpc2.Error")))
+
+// One HTTP request maps to at most one JSON-RPC call; 400 for an unparsable
+// URL (no call), 404 for method-not-found, 500 for any other failure, 200 else.
+//@ func (Getter).ServeHTTP
+//@   requires w != nil && req != nil && req.URL != nil && g.local.Client != nil
+//@   modifies whStatus(w), whCalls(w), wbCalls(w), wbJSON(w), clientCalls
+//@   ensures[C19:one-header] whCalls(w) == old(whCalls(w)) + 1
+//@   ensures[C19:bad-url] !called("call.CallResult#1") ==> whStatus(w) == 400 && wbJSON(w) && clientCalls == old(clientCalls)
+//@   ensures[C19:one-call] called("call.CallResult#1") ==> clientCalls == old(clientCalls) + 1
+//@   ensures[C19:not-found] called("call.CallResult#1") && callres("call.CallResult#1", 0, "error") != nil && marshalable(callres("call.CallResult#1", 0, "error")) ==> whStatus(w) == (errorCodeSpec(callres("call.CallResult#1", 0, "error")) == -32601 ? 404 : 500) && wbJSON(w)
+//@   ensures[C19:ok] called("call.CallResult#1") && callres("call.CallResult#1", 0, "error") == nil ==> whStatus(w) == 200 || whStatus(w) == 500
